@@ -103,6 +103,9 @@ def constructor_checks(chk, P):
             ("pair in both species orders, among other pairs", "[Pair]\nC-D : as.zero\nU-O : as.zero\nA-B : as.zero\nO-U : as.zero\n", True),
             ("pair of multi-character species in both orders", "[Pair]\nNa-Cl : as.zero\nCl-Na : as.zero\n", True),
             ("pair of species of different lengths in both orders", "[Pair]\nO-Zr : as.zero\nAl-O : as.zero\nZr - O : as.zero\n", True),
+            ("pair of species that differ by case only, in both orders", "[Pair]\nO-o : as.zero\nU-U : as.zero\no-O : as.zero\n", True),
+            ("pair of species whose order changes under case folding, in both orders", "[Pair]\nb-C : as.zero\nC-b : as.zero\n", True),
+            ("pairs that differ in the case of a species label only", "[Pair]\nO-U : as.zero\no-U : as.zero\n", False),
             ("pairs that are each other's mirror image as text only", "[Pair]\nNa-Cl : as.zero\nlC-aN : as.zero\n", False),
             ("three distinct pairs", "[Pair]\nB-A : as.zero\nC-A : as.zero\nC-B : as.zero\n", False),
             ("like-species pair once", "[Pair]\nA-A : as.zero\nA-B : as.zero\n", False),
